@@ -132,18 +132,7 @@ def check(db, rep):
     for need in ('AddConnection', 'SetItemInputs', 'EraseInternal'):
         if need not in writers:
             r1.broken('expected edge-list writer %s not found' % need)
-    # a *replacing* writer (SetItemInputs) drops the old edges on every path, also when the new input set is empty
-    si = methods.get('SetItemInputs')
-    if si is not None:
-        clears = [si.position_of(n) for n in si.calls() if n['k'] == 'CXXMemberCallExpr' and (n.get('cs') or '').split('::')[-1] == 'clear'
-                  and 'obj' in n and si.strip(si.stmts[n['obj']]).get('member') == 'inputs']
-        clears = [c for c in clears if c is not None]
-        succ_, entry_, exit_ = si.graph()
-        exits = [(p, '') for p, r in si.return_sites()] + [(exit_, '')]
-        if clears and not paths_avoiding(si, [entry_], clears, exits):
-            r1.ok('SetItemInputs:replace-on-every-path', 'the old inputs are unlinked and cleared on every path, before any new edge', '%s:%d' % (si.file, si.line))
-        else:
-            r1.violation('SetItemInputs:replace-on-every-path', '%s:%d' % (si.file, si.line), 'some path leaves SetItemInputs without dropping the old inputs (e.g. an early return for an empty input set): replacing inputs by {} keeps stale edges')
+    replace_rule(db, r1)
     # AddConnection must refuse duplicates (edge count, erase of one occurrence)
     ac = methods.get('AddConnection')
     if ac is not None:
@@ -175,23 +164,8 @@ def check(db, rep):
     _scc(db, r5, methods)
 
     # ------------------------------------------------------------------ r6
-    r6 = rep.rule('r6', 'UPDATER: UpdateFor calls SetItemInputs(item, updater(item)) exactly under !IsBroken()', 1)
-    uf = db.fn('ccl::graph::UpdatableGraph::UpdateFor')
-    sites = call_sites(uf, lambda n: n.get('cs') == G + '::SetItemInputs')
-    if len(sites) != 1:
-        r6.violation('UpdateFor', '%s:%d' % (uf.file, uf.line), 'UpdateFor does not replace the inputs of the item through SetItemInputs')
-    else:
-        p, n = sites[0]
-        atoms = guard_atoms(uf, p)
-        K = Keyer(uf)
-        args = [K.key(uf.stmts[a]) for a in n['args']]
-        item = ('var', uf.rec['params'][0]['name'])
-        good_args = args[0] == item and isinstance(args[1], tuple) and args[1][0] == 'opcall' and args[1][1] == '()' and args[1][-1] == item and args[1][2] == ('.', 'updater', ('this',))
-        guard_ok = len(atoms) == 1 and atoms[0][0] == 'other' and 'IsBroken' in atoms[0][1] and atoms[0][2] is False
-        if good_args and guard_ok:
-            r6.ok('UpdateFor', 'SetItemInputs(item, updater(item)) under !IsBroken()', uf.loc(n))
-        else:
-            r6.violation('UpdateFor', uf.loc(n), 'expected SetItemInputs(item, updater(item)) guarded exactly by !IsBroken(); found args %s under guards %s' % (short(args, 80), [(a[1], a[2]) for a in atoms]))
+    r6 = rep.rule('r6', 'UPDATER: unless the graph is broken, UpdateFor replaces the inputs of the item by updater(item) on every path (through SetItemInputs, the only replacing writer)', 1)
+    updater_rule(db, r6)
 
     # ------------------------------------------------------------------ r7
     r7 = rep.rule('r7', 'CLOSURE-SHAPE: in worklist closures every pushed vertex is marked in the same step, only unmarked vertices are pushed, every popped vertex is emitted', 3)
@@ -740,3 +714,75 @@ def _closure(r7, f, name):
         r7.violation(name, '%s:%d' % (f.file, f.line), '; '.join(problems))
     else:
         r7.ok(name, '%d pushes marked and guarded, popped vertex emitted' % len(pushes), '%s:%d' % (f.file, f.line))
+
+
+def updater_rule(db, r6):
+    uf = db.fn('ccl::graph::UpdatableGraph::UpdateFor')
+    sites = call_sites(uf, lambda n: n.get('cs') == G + '::SetItemInputs')
+    item_did = uf.rec['params'][0]['did']
+
+    def from_updater(n, depth=0):
+        """the expression is updater(item) or a local initialised with it"""
+        n = uf.strip(n)
+        if n is None or depth > 3:
+            return False
+        if n['k'] == 'CXXOperatorCallExpr' and n.get('op') == '()' and 'updater' in uf.stmts[n['args'][0]].get('txt', '') and len(n['args']) == 2 and uf.strip(uf.stmts[n['args'][1]]).get('did') == item_did:
+            return True
+        if n['k'] == 'DeclRefExpr' and n.get('dk') == 'local':
+            for s0 in uf.rec['stmts']:
+                if s0['k'] == 'DeclStmt':
+                    for d in s0.get('decls', []):
+                        if d.get('did') == n.get('did') and 'init' in d:
+                            return from_updater(uf.stmts[d['init']], depth + 1)
+        if n['k'] in ('CXXConstructExpr', 'CallExpr') and len(n.get('args', [])) == 1:      # copy / std::move
+            return from_updater(uf.stmts[n['args'][0]], depth + 1)
+        return False
+    good = [(p, n) for p, n in sites if len(n.get('args', [])) == 2 and uf.strip(uf.stmts[n['args'][0]]).get('did') == item_did and from_updater(uf.stmts[n['args'][1]])]
+    if not good:
+        r6.violation('UpdateFor', '%s:%d' % (uf.file, uf.line), 'UpdateFor does not replace the inputs of the item with updater(item) through SetItemInputs')
+        return
+    # every path on which IsBroken() is false reaches such a call: block the calls and the IsBroken()-true edges, then no exit may be reachable
+    succ, entry, exit_ = uf.graph()
+    blocked_edges = set()
+    from engine.cfgq import cond_edges
+    for bid, c, t, fl in cond_edges(uf):
+        c2, pol2 = normalise_cond(uf, uf.strip(c), True)
+        if c2 is not None and c2['k'] == 'CXXMemberCallExpr' and (c2.get('cs') or '').endswith('::IsBroken'):
+            to = t if pol2 else fl       # the edge on which IsBroken() is true
+            if to is not None:
+                blocked_edges.add(((bid, len(uf.blocks[bid]['el'])), (to, 0)))
+    stops = {p for p, n in good}
+    seen, stack, leak = set(), [entry], False
+    while stack:
+        q = stack.pop()
+        if q == exit_:
+            leak = True
+            break
+        if q in seen or q in stops:
+            continue
+        seen.add(q)
+        for nx in succ.get(q, []):
+            if (q, nx) not in blocked_edges:
+                stack.append(nx)
+    if leak:
+        r6.violation('UpdateFor', '%s:%d' % (uf.file, uf.line), 'on some path with a sound graph UpdateFor returns without SetItemInputs(item, updater(item)) (e.g. when the updater yields no inputs): the old edges of the item stay')
+    else:
+        r6.ok('UpdateFor', 'SetItemInputs(item, updater(item)) on every path with !IsBroken()', uf.loc(good[0][1]))
+
+
+def replace_rule(db, r1):
+    """a *replacing* writer (SetItemInputs) drops the old edges on every path, also when the new input set is empty"""
+    si = [f for f in db.methods_of(G) if f.name.endswith('::SetItemInputs') and f.has_cfg()]
+    if not si:
+        r1.broken('anchor vanished: CGraph::SetItemInputs')
+        return
+    si = si[0]
+    clears = [si.position_of(n) for n in si.calls() if n['k'] == 'CXXMemberCallExpr' and (n.get('cs') or '').split('::')[-1] == 'clear'
+              and 'obj' in n and si.strip(si.stmts[n['obj']]).get('member') == 'inputs']
+    clears = [c for c in clears if c is not None]
+    succ_, entry_, exit_ = si.graph()
+    exits = [(p, '') for p, r in si.return_sites()] + [(exit_, '')]
+    if clears and not paths_avoiding(si, [entry_], clears, exits):
+        r1.ok('SetItemInputs:replace-on-every-path', 'the old inputs are unlinked and cleared on every path, before any new edge', '%s:%d' % (si.file, si.line))
+    else:
+        r1.violation('SetItemInputs:replace-on-every-path', '%s:%d' % (si.file, si.line), 'some path leaves SetItemInputs without dropping the old inputs (e.g. an early return for an empty input set): replacing inputs by {} keeps stale edges')
